@@ -1,5 +1,6 @@
 import CedarVerif.Lemmas.SyntaxSound
 import CedarVerif.Lemmas.SyntaxSplitOn
+import CedarVerif.Lemmas.SyntaxPolicy
 import CedarVerif.Cedar.Eval
 /-
 C05 — policy text → AST → text round trip.  Property theorems (every `theorem` here is an obligation).
@@ -27,8 +28,23 @@ What is proved about `Parse.expr (Print.expr me e) = some e` (for every escape t
 Proof files: Lemmas/Syntax{Parse,Frag,Main,Chain}.lean (operators, chains), Syntax{Mem,Rec,Name,Prim,Full}.lean (`Member`
 level in continuation form, lists, records, names, the induction), SyntaxSound.lean (parser invariant), SyntaxSplitOn.lean
 (`intercalate "::" ∘ splitOn "::" = id` and the converse on identifiers, for the legacy byte-position `String.splitOn`).
-Not covered by theorems: policies / templates / annotations at the token level and the lexer (checked on the
-implementation by the harness); the nesting-depth limit of the real parser (the model has none).
+POLICY LEVEL (model: Cedar/Syntax/{PolicyPrint,PolicyParse}.lean; AST = `Cedar.TemplateBody` of the C08 model; proofs:
+Lemmas/SyntaxPolicy.lean):
+* `policy_parse_print : PolicyParsePrintFull` — THE FULL STATEMENT for policies and templates: for every `TemplateBody` in
+  `PolicyImage` (annotations in strict key order = a `BTreeMap`; scope constraints of every form `principal`, `== uid`,
+  `== ?principal`, `in uid`, `in ?principal`, `is T`, `is T in uid`, `is T in ?principal`, same for `resource`; `action`,
+  `action == uid`, `action in [uid,…]` with action-typed uids; effect; no condition or one folded condition in
+  `ParserImage` without slots) and every escape table, `parsePolicy id (printPolicy p) = some p`.
+* `annotation_round_trip` — annotation values with arbitrary content survive `escape_debug` printing and unescaping.
+* `policy_round_trip_text` — from text: a token list the model parser accepts with a result in `PolicyImage` re-parses
+  to the same object after printing.
+* `PolicyParseImage` (a `def … : Prop`, NOT proved): the policy parser only returns `PolicyImage` objects on well-formed
+  tokens.  Missing: the parser-invariant induction for `parseAnnots`/`scopeElem`/`actionElem`/`parseConds` (the expression
+  part is `parse_image`), including that `foldr insertAnn` sorts and that `mkAnd`-folding stays in `ParserImage`.
+  Until then the several-clause forms (`when … unless …`) enter the theorems through their folded image only; that the
+  fold is what Rust computes is checked by the `polparse` correspondence lines.
+Not covered by theorems: the lexer (text → tokens; checked on the implementation by the harness, whose tokenizer is
+trusted); policy sets; the EST printer; the nesting-depth limit of the real parser (the model has none).
 -/
 namespace Cedar.C05
 open Cedar Cedar.Syntax
@@ -536,6 +552,86 @@ example : Print.expr (fun _ => false)
      .rparen, .dot, .ident "isEmpty", .lparen, .rparen] := by
   simp [Print.expr, printE, printEs, printEsTail, printKVs, printKVsTail, paren, needsParens, infixTok, isBin, isExtMethod, extMethods,
     nameTokens, splitOn_datetime, keyTok, strTok, isNormalizedIdent, varName]
+  decide
+
+/-! ### policies and templates -/
+
+/-- Policies / templates the lowering `cst_to_ast::to_policy_template` can produce: annotations in strict key order (a
+`BTreeMap`), every scope-constraint form with valid type names, action constraints over action-typed uids (always a
+list after `in`), no condition (`None`) or one condition from the expression parser's image that contains no slot.
+The `id` is arbitrary (it is an argument of the parser, not part of the text). -/
+def PolicyImage (b : TemplateBody) : Bool := policyOKW validTypeName ParserImage b
+
+/-- The full statement (C05, policy level): for every policy or template the parser can produce and every behaviour of
+the `escape_debug` tables, parsing the printed form gives the same object back (effect, annotations, scope constraints,
+slots, condition) — hence the same `condition()` and the same evaluation on every request. -/
+def PolicyParsePrintFull : Prop :=
+  ∀ (mustEscape : Char → Bool) (b : TemplateBody), PolicyImage b = true → parsePolicy b.id (printPolicy mustEscape b) = some b
+
+theorem validTypeName_ok {ty : String} (h : validTypeName ty = true) : typeNameOk ty = true := by
+  simp only [typeNameOk, Bool.and_eq_true, beq_iff_eq]
+  exact ⟨h, joinName_splitOn ty⟩
+
+/-- **C05, policy level, full statement.** -/
+theorem policy_parse_print : PolicyParsePrintFull := fun me b h =>
+  parsePolicy_print me b (policyOKW_mono (fun _ => validTypeName_ok)
+    (fun e he => parserImage_inFrag3 joinName_splitOn (sz3 e) e (Nat.le_refl _) he) h)
+
+/-- annotation values: any string content (quotes, backslashes, control characters, any Unicode, whatever the tables of
+`escape_debug` decide) is read back unchanged; stated for a whole annotation block followed by the effect keyword -/
+theorem annotation_round_trip (mustEscape : Char → Bool) (annots : List (String × String)) (eff : String) (rest : List Token) :
+    parseAnnots (annots.length + 1) (printAnnots mustEscape annots ++ .ident eff :: rest) = some (annots, .ident eff :: rest) :=
+  parseAnnots_print mustEscape eff rest annots _ (Nat.lt_succ_self _)
+
+/-- from text: whatever token list the model parser accepts with a result in the image, printing that result (any escape
+table) and parsing again gives the same object -/
+theorem policy_round_trip_text (mustEscape : Char → Bool) (id : String) (ts : List Token) (b : TemplateBody)
+    (h : parsePolicy id ts = some b) (hi : PolicyImage b = true) :
+    parsePolicy b.id (printPolicy mustEscape b) = parsePolicy id ts := by
+  rw [h]; exact policy_parse_print mustEscape b hi
+
+/-- NOT PROVED (kept visible): soundness of `PolicyImage` — on well-formed tokens the policy parser only returns objects
+of the image.  With it `policy_round_trip_text` loses its hypothesis `hi`. -/
+def PolicyParseImage : Prop :=
+  ∀ (id : String) (ts : List Token) (b : TemplateBody), TokWF ts → parsePolicy id ts = some b → PolicyImage b = true
+
+-- non-vacuity: the template
+--   @id("a\"b") permit(principal == ?principal, action, resource is Ns::User in ?resource)
+--     when { context.x } unless { principal has y };
+def samplePolicy : TemplateBody :=
+  { id := "p0", annotations := [("id", "a\"b")], effect := .permit,
+    principalC := .eq .slot, actionC := .any, resourceC := .isIn "Ns::User" .slot,
+    nonScope := some (.and (.getAttr (.var .context) "x") (.unaryApp .not (.hasAttr (.var .principal) "y"))) }
+
+def samplePolicyTokens : List Token :=
+  [.at, .ident "id", .lparen, .str ['a', '\\', '"', 'b'], .rparen, .ident "permit", .lparen,
+   .ident "principal", .eqeq, .slot "?principal", .comma, .ident "action", .comma,
+   .ident "resource", .ident "is", .ident "Ns", .dcolon, .ident "User", .ident "in", .slot "?resource", .rparen,
+   .ident "when", .lbrace, .ident "context", .dot, .ident "x", .rbrace,
+   .ident "unless", .lbrace, .ident "principal", .ident "has", .ident "y", .rbrace, .semi]
+
+-- the `when` + `unless` clauses are folded into `context.x && !(principal has y)`
+example : (parsePolicy "p0" samplePolicyTokens).map (·.nonScope) = some samplePolicy.nonScope := by rfl
+example : (parsePolicy "p0" samplePolicyTokens).map (fun b => (b.annotations, b.principalC, b.actionC, b.resourceC)) =
+    some ([("id", "a\"b")], .eq .slot, .any, .isIn "Ns::User" .slot) := by rfl
+
+theorem samplePolicy_image : PolicyImage samplePolicy = true := by
+  simp [PolicyImage, samplePolicy, policyOKW, sortedAnn, scopeOKW, refOKW, actionOKW, condOKW, validTypeName,
+    splitOn_NsUser, ParserImage, Expr.slots] <;> decide
+
+example : parsePolicy "p0" (printPolicy (fun c => c.toNat ≥ 127) samplePolicy) = some samplePolicy :=
+  policy_parse_print _ _ samplePolicy_image
+
+-- what the printer produces for it: ONE `when` clause holding the folded condition
+--   @id("a\"b") permit(principal == ?principal, action, resource is Ns::User in ?resource) when { context.x && (!(principal has y)) };
+example : printPolicy (fun _ => false) samplePolicy =
+    [.at, .ident "id", .lparen, .str ['a', '\\', '"', 'b'], .rparen, .ident "permit", .lparen,
+     .ident "principal", .eqeq, .slot "?principal", .comma, .ident "action", .comma,
+     .ident "resource", .ident "is", .ident "Ns", .dcolon, .ident "User", .ident "in", .slot "?resource", .rparen,
+     .ident "when", .lbrace, .ident "context", .dot, .ident "x", .andand, .lparen, .bang, .lparen, .ident "principal", .ident "has",
+     .ident "y", .rparen, .rparen, .rbrace, .semi] := by
+  simp [printPolicy, samplePolicy, printAnnots, printScope, printAction, printCond, printE, refExpr, nameTokens, splitOn_NsUser,
+    effectName, slotName, varName, paren, needsParens, isAnd, keyTok, strTok, isNormalizedIdent]
   decide
 
 end Cedar.C05
